@@ -3,6 +3,8 @@ package main
 import (
 	"context"
 	"fmt"
+	"io"
+	"log"
 	"os"
 	"runtime"
 	"sync"
@@ -32,7 +34,24 @@ func auxRace(id string) int {
 
 // auxRaceC10: 2..16 goroutines, each stepping its own CPU on its own memory
 // through every decode path and a few structured programs.
+// appLog is an application's log destination that is not safe for concurrent use (a plain buffer). The
+// standard logger serialises the writes of all its users; a package that logs some other way breaks that.
+type appLog struct {
+	n   int
+	buf []byte
+}
+
+func (a *appLog) Write(p []byte) (int, error) {
+	a.n++
+	if len(a.buf) < 4096 {
+		a.buf = append(a.buf, p...)
+	}
+	return len(p), nil
+}
+
 func auxRaceC10() int {
+	log.SetOutput(&appLog{})
+	defer log.SetOutput(io.Discard)
 	paths := decodePaths()
 	bg := obs.NewBackground(1)
 	for _, g := range []int{2, 4, 16} {
